@@ -19,6 +19,7 @@ from btclib.descriptors import descriptors as D
 from btclib.script import taproot as T
 from btclib.script.engine import taproot_unwrap_script, verify_input
 from btclib.script.engine.flags import ALL_FLAGS, ScriptFlag
+from btclib.script import script_pub_key as SPK
 from btclib.script.witness import Witness
 from btclib.tx import OutPoint, Tx, TxIn, TxOut
 
@@ -425,6 +426,23 @@ def _impl(op, a):
         return f"ok {hx(root)} " + "|".join(f"{v}:{hx(T.serialize(list(s)))}:{hx(p)}" for (v, s), p in info)
     if op == "leafhash":
         return "ok " + hx(T.leaf_hash(int(a[0]), unhx(a[1])))
+    if op == "p2trspk":
+        spk = SPK.ScriptPubKey.p2tr(None if a[0] == "-" else unhx(a[0]), _opt_tree(a[1]))
+        return f"ok {hx(spk.script)}"
+    if op == "isp2tr":
+        b = unhx(a[0])
+        try:
+            SPK.assert_p2tr(b)
+            g = "-"
+        except Exception as e:  # noqa: BLE001
+            m = str(e)
+            if common.err_class(e) != "value":
+                raise
+            g = "1" if "invalid witness version" in m else "2" if "length marker" in m else "0"
+        r = SPK.is_p2tr(b)
+        if not isinstance(r, bool):
+            return f"ok non-bool:{r!r}"
+        return f"ok {'True' if r else 'False'} {g}"
     if op == "pathof":
         tree, i = tree_of(a[0]), int(a[1])
         info, _ = T.tree_helper(tree)
@@ -898,6 +916,35 @@ def _leaf_at(shape, i):
     return flat[i]
 
 
+def _o_p2tr_glue(w):
+    """ScriptPubKey.p2tr / b32.p2tr / bip44 / from_address / the witness-program reader agree on ONE output key, and a
+    control block of the tree proves its leaf against the scriptPubKey's own payload"""
+    key = None if w["key"] is None else bytes.fromhex(w["key"])
+    tree = _opt_tree(w["tree"])
+    with arm(w["arm"]):
+        q, _ = T.output_pubkey(key, tree)
+        spk = SPK.ScriptPubKey.p2tr(key, tree, w["network"])
+        if spk.script != b"\x51\x20" + q or not SPK.is_p2tr(spk.script) or SPK.is_p2tr(spk.script[:-1]):
+            return False, f"ScriptPubKey.p2tr script {spk.script.hex()} vs output key {q.hex()}"
+        if SPK._witness_type_and_payload(spk.script) != ("p2tr", q) or spk.type != "p2tr":
+            return False, "witness program of the p2tr script is not the output key"
+        addr = b32.p2tr(q, w["network"])
+        if spk.address != addr:
+            return False, "ScriptPubKey.address != b32.p2tr(output key)"
+        ver, prog, net = b32.witness_from_address(addr)[:3]
+        if (ver, bytes(prog), net) != (1, q, w["network"]):
+            return False, f"b32.witness_from_address(p2tr address) -> {(ver, bytes(prog).hex(), net)}"
+        if SPK.ScriptPubKey.from_address(addr).script != spk.script:
+            return False, "from_address(address).script != script"
+        if tree is None and key is not None and bip44._p2tr(key, w["network"]) != addr:
+            return False, "bip44._p2tr != b32.p2tr(output_pubkey(key))"
+        if tree is not None:
+            script, c = T.input_script_sig(key, tree, 0)
+            if T.check_output_pubkey(spk.script[2:], T.serialize(list(script)), c) is not True:
+                return False, "control block does not prove its leaf against the scriptPubKey payload"
+    return True, addr
+
+
 def _guard(fn):
     """an oracle that raises has found something: the real code left through an exception it should not"""
     def g(w):
@@ -912,7 +959,7 @@ def _guard(fn):
 ORACLES = {"cb.proves": _o_proves, "cb.bitflip": _o_bitflip, "tweak.agree": _o_agree, "key.refused": _o_refuse,
            "tweak.range": _o_tweak_range, "backends.agree": _o_backends, "desc.tr": _o_desc, "bip341.vector": _o_bip341,
            "bip341.keypath": _o_keypath, "engine.spend": _o_engine,
-           "key.zero_padded": _o_zero_padded, "key.zero_padded.sane": _o_zero_padded_sane, "desc.ranged": _o_desc_ranged}
+           "p2tr.glue": _o_p2tr_glue, "key.zero_padded": _o_zero_padded, "key.zero_padded.sane": _o_zero_padded_sane, "desc.ranged": _o_desc_ranged}
 ORACLES = {k: _guard(v) for k, v in ORACLES.items()}
 
 
@@ -1127,9 +1174,45 @@ def run(ctx):
             L["pyentry"] += [f"outpubpy@{arm_} {kk} {tk}", f"isspy@{arm_} {kk} {tk} {rng.choice([0, 0, 1, -1, 3])}",
                              f"outprvpy@{arm_} {rng.choice([dk, dk, 0, N, 1])} {tk}"]
 
+    # p2tr glue: ScriptPubKey.p2tr on both arms (keys in every spelling / none / bad, trees / none), is_p2tr on every
+    # guard (length, version opcode, push marker), and the glue oracle on every network
+    L["p2tr"] = []
+    dg = rng.randrange(1, N)
+    gk = [hx(sx) for _, sx in spellings(rng, dg)] + ["-", "_", hx(bad_secs(rng, dg)[0]), hx(b"\x05" + mult(dg)[0].to_bytes(32, "big"))]
+    gt = [tok_of(t) for _, t in trees if n_leaves(t) <= 8][:6] + ["-"]
+    for kk in gk:
+        for tk in rng.sample(gt, 3) + ["-"]:
+            a_ = rng.choice(arms)
+            L["p2tr"].append(f"p2trspk@{a_} {kk} {tk}")
+            if kk in gk[:5] and not (kk == "-" and tk == "-"):       # the four spellings and None
+                ctx.check("p2tr.glue", {"key": None if kk == "-" else kk, "tree": tk, "arm": a_,
+                                        "network": rng.choice(["mainnet", "testnet", "regtest"])})
+    qg = common.rand_bytes(rng, 32)
+    for ln in list(range(0, 40)) + [64, 65]:
+        L["p2tr"].append(f"isp2tr {hx((b'\x51\x20' + qg + bytes(40))[:ln])}")
+    for b0 in (0x00, 0x50, 0x52, 0x60, 0x51):
+        for b1 in (0x20, 0x1f, 0x21, 0x00, 0x4c):
+            L["p2tr"].append(f"isp2tr {hx(bytes([b0, b1]) + qg)}")
+    # the parity bit, every branch of check_output_pubkey: bindings with a 32-octet q (tweak_add_check), bindings with
+    # another length (Python path), pure Python; parity right / wrong; x right / wrong; internal key ≥ p, not liftable
+    L["check.parity"] = []
+    nlx = non_liftable_x(rng).to_bytes(32, "big")
+    for a_, q, sx, c in rng.sample(flips, min(len(flips), ctx.n(24, 200))):
+        for arm_ in arms:
+            for qq, ql in ((q, "32"), (b"\x00" + q, "33"), (_flip(q, rng.randrange(256)), "32-wrong-x")):
+                for cc, cl in ((c, "parity kept"), (bytes([c[0] ^ 1]) + c[1:], "parity flipped")):
+                    ctx.count("check.parity branch", f"{arm_} q:{ql} {cl}")
+                    L["check.parity"].append(f"check@{arm_} {hx(qq)} {hx(sx)} {hx(cc)}")
+            for xb_, xl in ((P_FIELD.to_bytes(32, "big"), "x = p"), (b"\xff" * 32, "x > p"), (nlx, "x not liftable"), (bytes(32), "x = 0")):
+                ql = rng.choice([q, b"\x00" + q])
+                ctx.count("check.parity branch", f"{arm_} q:{len(ql)} {xl}")
+                L["check.parity"].append(f"check@{arm_} {hx(ql)} {hx(sx)} {hx(c[:1] + xb_ + c[33:])}")
+
     for name in ("tree", "pathof", "leafhash", "outpub", "outpubroot", "outprv", "outprvroot", "iss", "check", "check.mutated"):
         ctx.stream(name, L[name])
     ctx.stream("malformed", L["malformed"], nontrivial=lambda ln, out: True)
+    ctx.stream("p2tr", L["p2tr"], nontrivial=lambda ln, out: True)
+    ctx.stream("check.parity", L["check.parity"], nontrivial=lambda ln, out: True)
     ctx.stream("pytree", L["pytree"], nontrivial=lambda ln, out: True)
     ctx.stream("pyentry", L["pyentry"], nontrivial=lambda ln, out: True)
 
